@@ -838,6 +838,11 @@ pub fn gen_data_batch(seed: u64, n_defs: usize, module: &str, name_prefix: &str)
         Ty::Map(MapKind::Index, bx(u32t.clone()), bx(Ty::Seq(SeqKind::Vec, bx(u32t.clone())))),
         Ty::Array(bx(Ty::Prim(Prim::U16)), 4),
         Ty::Array(bx(Ty::Str), 0),
+        // zero-sized but aligned items (a Vec of them is read without touching the input)
+        Ty::Array(bx(u32t.clone()), 0),
+        Ty::Array(bx(Ty::Prim(Prim::U64)), 0),
+        Ty::Seq(SeqKind::Vec, bx(Ty::Array(bx(Ty::Prim(Prim::U16)), 0))),
+        Ty::Unit,
         Ty::Tuple(vec![Ty::Prim(Prim::U8)]),
         Ty::Tuple(vec![Ty::Prim(Prim::U8), Ty::Prim(Prim::U32)]),
         Ty::Tuple(vec![Ty::Prim(Prim::U16), Ty::Prim(Prim::U16), Ty::Prim(Prim::U16)]),
